@@ -106,7 +106,28 @@ func c09PeekUnderDeadline(c *Ctx, find *ssa.Function) {
 		return true, ""
 	}
 	n := 0
-	for _, call := range Calls(find) {
+	// the selector and the helpers of its package it calls synchronously (a helper that wraps and peeks)
+	scope := []*ssa.Function{find}
+	seenFn := map[*ssa.Function]bool{find: true}
+	for i := 0; i < len(scope) && i < 20; i++ {
+		for _, call := range Calls(scope[i]) {
+			hf := call.Common().StaticCallee()
+			if _, isCall := call.(*ssa.Call); !isCall || hf == nil || seenFn[hf] || hf == peek || !InRepo(hf) || hf.Blocks == nil || PkgOf(hf) != PkgOf(find) {
+				continue
+			}
+			if r := hf.Signature.Recv(); r != nil && (NamedOf(r.Type()) == peekT || NamedOf(r.Type()) == toT) {
+				continue
+			}
+			seenFn[hf] = true
+			scope = append(scope, hf)
+		}
+	}
+	var sites []ssa.CallInstruction
+	for _, fn := range scope {
+		sites = append(sites, Calls(fn)...)
+	}
+	for _, call := range sites {
+		find := call.Parent()
 		cc := call.Common()
 		isPeek := cc.StaticCallee() == peek
 		isRead := cc.IsInvoke() && cc.Method.Name() == "Read" && types.TypeString(cc.Value.Type(), nil) == "net.Conn"
@@ -114,7 +135,7 @@ func c09PeekUnderDeadline(c *Ctx, find *ssa.Function) {
 			continue
 		}
 		n++
-		key := fmt.Sprintf("findService read[%d]", n-1)
+		key := fmt.Sprintf("%s read[%d]", shortFn(find), n-1)
 		recv := cc.Value
 		if isPeek {
 			recv = cc.Args[0]
